@@ -22,7 +22,7 @@
    (Proofs files), the correspondence instantiates it with [canon_sort] and compares
    edge / migration tables as canonically ordered row lists. *)
 From Coq Require Import List ZArith Bool Lia.
-From TskVerif Require Import Base.Common Gen.Generated.
+From TskVerif Require Import Base.Common.
 Import ListNotations.
 Open Scope Z_scope.
 
@@ -165,8 +165,10 @@ Definition delete_intervals (srt : tables -> tables) (ivs : list (Z * Z)) (t : t
      cond_fix  _check_trim_conditions joins its tests with `or` as its message says (F14)
    Which variant the source contains is re-extracted on every run (translator/facts_c11.py
    -> Gen/Generated.v: C11_ltrim_passes_edge_metadata, C11_ltrim_passes_migration_metadata,
-   C11_trim_check_uses_or); the correspondence entry points ltrim_c / rtrim_c / trim_c
-   follow those facts. *)
+   C11_trim_check_uses_or; C11/Current.v defines ltrim_current / rtrim_current / trim_current
+   from them).  The correspondence entry points ltrim_c / rtrim_c / trim_c take the three
+   switches as arguments: the harness extracts them from the same source with the same
+   extractor, so the case files do not depend on Gen/Generated.vo. *)
 
 Definition check_trim_conditions (cond_fix : bool) (t : tables) : bool :=   (* true = raises ValueError *)
   let bad_mig :=
@@ -216,12 +218,6 @@ Definition trim := trim_gen false false false.
 Definition ltrim_repaired := ltrim_gen true true true.
 Definition rtrim_repaired := rtrim_gen true.
 Definition trim_repaired := trim_gen true true true.
-(* the variant the source contains right now (regenerated facts) *)
-Definition ltrim_current :=
-  ltrim_gen C11_ltrim_passes_edge_metadata C11_ltrim_passes_migration_metadata C11_trim_check_uses_or.
-Definition rtrim_current := rtrim_gen C11_trim_check_uses_or.
-Definition trim_current :=
-  trim_gen C11_ltrim_passes_edge_metadata C11_ltrim_passes_migration_metadata C11_trim_check_uses_or.
 
 (* ------------------------------------------------------------------------- *)
 (* tsk_table_collection_delete_older                                           *)
@@ -376,9 +372,9 @@ Definition res_tables_eqb (a b : res tables) : bool :=
 Definition keep_intervals_c := keep_intervals canon_sort.
 Definition delete_intervals_c := delete_intervals canon_sort.
 Definition delete_sites_c := delete_sites.
-Definition ltrim_c := ltrim_current.
-Definition rtrim_c := rtrim_current.
-Definition trim_c := trim_current.
+Definition ltrim_c := ltrim_gen.
+Definition rtrim_c := rtrim_gen.
+Definition trim_c := trim_gen.
 Definition delete_older_c := delete_older.
 Definition split_edges_c := split_edges canon_sort.
 Definition decapitate_c := decapitate canon_sort.
